@@ -155,10 +155,8 @@ func setSupply(h *apph.H, ctx sdk.Context, denom string, target *big.Int) error 
 		// take the coins from the first account that can afford them
 		for _, a := range h.Accts {
 			if h.Bal(ctx, a.Addr, denom).BigInt().Cmp(d) >= 0 {
-				if err := h.App.BankKeeper.SendCoinsFromAccountToModule(ctx, a.Addr, minttypes.ModuleName, coins); err != nil {
-					return err
-				}
-				return h.App.BankKeeper.BurnCoins(ctx, authtypes.NewModuleAddress(minttypes.ModuleName), coins)
+				// what bank's Msg/Burn does for a user
+				return h.App.BankKeeper.BurnCoins(ctx, a.Addr, coins)
 			}
 		}
 		return fmt.Errorf("cannot lower supply of %s by %s", denom, d)
@@ -408,8 +406,47 @@ func Run(seed int64, n int, outDir string) error {
 }
 
 // runMintBlocks runs real blocks with varied time steps and records, per block, the supplies and
-// the STORED minter before and after, so that persistence of the last-mint time is covered.
+// the STORED minter before and after, so that persistence of the last-mint time is covered. The
+// second history keeps the combined supply at the cap for a while (the provision is zero there)
+// and then lowers it by burns of different sizes: what is minted afterwards is pro-rated to the
+// time since the previous minute epoch, not to the time spent at the cap.
 func runMintBlocks(r *emit.Rand, cf *emit.CasesFile, st *emit.Stats) error {
+	steps := []time.Duration{time.Second, 30 * time.Second, 59 * time.Second, 61 * time.Second, 61 * time.Second, 2 * time.Minute, time.Hour, 61 * time.Second, 7 * time.Second, 90 * time.Second}
+	if err := mintHistory("free", r, cf, st, 36, steps, nil); err != nil {
+		return err
+	}
+	capSteps := []time.Duration{61 * time.Second, 61 * time.Second, 5 * time.Minute, 20 * time.Minute, time.Hour, 6 * time.Hour, 30 * time.Second}
+	// block index -> change of the combined supply applied before that block (through the fee token)
+	atCap := func(h *apph.H, i int) error {
+		ctx := h.Ctx()
+		total := new(big.Int).Add(h.Supply(ctx, fee).BigInt(), h.Supply(ctx, bond).BigInt())
+		capv := mintCap()
+		target := new(big.Int)
+		switch {
+		case i == 0 || i == 22:
+			target.Set(capv) // exactly at the cap
+		case i == 11:
+			target.Sub(capv, new(big.Int).Div(capv, big.NewInt(8))) // a holder burns an eighth of the supply
+		case i == 17:
+			target.Add(capv, big.NewInt(12345)) // above the cap (another module minted)
+		case i == 30:
+			target.Sub(capv, big.NewInt(10_000_000)) // small burn: room of 10 tokens
+		case i == 36:
+			target.Sub(capv, big.NewInt(int64(1+r.Intn(2_000_000)))) // room so small that the minute provision truncates to zero
+		default:
+			return nil
+		}
+		d := new(big.Int).Sub(target, total)
+		return setSupply(h, ctx, fee, new(big.Int).Add(h.Supply(ctx, fee).BigInt(), d))
+	}
+	return mintHistory("at-cap", r, cf, st, 44, capSteps, atCap)
+}
+
+func mintCap() *big.Int {
+	return new(big.Int).Mul(big.NewInt(1_000_000_000), big.NewInt(1_000_000))
+}
+
+func mintHistory(name string, r *emit.Rand, cf *emit.CasesFile, st *emit.Stats, blocks int, steps []time.Duration, before func(h *apph.H, i int) error) error {
 	h := apph.New(apph.Options{NumAccounts: 2, Balances: sdk.NewCoins(sdk.NewCoin(fee, sdkmath.NewInt(400_000_000_000_000)), sdk.NewCoin(bond, sdkmath.NewInt(50_000_000_000_000)))})
 	defer h.Close()
 	stored := func(ctx sdk.Context) string {
@@ -419,12 +456,24 @@ func runMintBlocks(r *emit.Rand, cf *emit.CasesFile, st *emit.Stats) error {
 		}
 		return emit.Some(emit.ZI(int64(binary.BigEndian.Uint64(m.Data))))
 	}
-	var prevMint *int64
-	steps := []time.Duration{time.Second, 30 * time.Second, 59 * time.Second, 61 * time.Second, 61 * time.Second, 2 * time.Minute, time.Hour, 61 * time.Second, 7 * time.Second, 90 * time.Second}
-	for i := 0; i < 36; i++ {
+	epoch := func(ctx sdk.Context) int64 {
+		e, err := h.App.EpochsKeeper.EpochInfo.Get(ctx, "minute")
+		if err != nil {
+			return -1
+		}
+		return e.CurrentEpoch
+	}
+	var prevEpochTime *int64
+	for i := 0; i < blocks; i++ {
+		if before != nil {
+			if err := before(h, i); err != nil {
+				return fmt.Errorf("%s: supply change before block %d: %w", name, i, err)
+			}
+		}
 		ctx := h.Ctx()
 		f0, b0 := h.Supply(ctx, fee).BigInt(), h.Supply(ctx, bond).BigInt()
 		s0 := stored(ctx)
+		e0 := epoch(ctx)
 		p, err := h.App.LiquidityincentiveKeeper.Params.Get(ctx)
 		if err != nil {
 			return err
@@ -437,21 +486,30 @@ func runMintBlocks(r *emit.Rand, cf *emit.CasesFile, st *emit.Stats) error {
 		ctx = h.Ctx()
 		f1, b1 := h.Supply(ctx, fee).BigInt(), h.Supply(ctx, bond).BigInt()
 		s1 := stored(ctx)
+		began := epoch(ctx) != e0
 		df, db := new(big.Int).Sub(f1, f0), new(big.Int).Sub(b1, b0)
 		nowNs := new(big.Int).SetInt64(h.Time.UnixNano())
-		cf.Add(fmt.Sprintf("CMintBlock {| bk_fee := %s; bk_bond := %s; bk_stored := %s; bk_now_ns := %s; bk_ratio := %s; bk_dfee := %s; bk_dbond := %s; bk_stored' := %s; bk_prev_mint := %s |}",
-			emit.Z(f0), emit.Z(b0), s0, emit.Z(nowNs), emit.Z(ratio.BigInt()), emit.Z(df), emit.Z(db), s1, optZ(prevMint)))
-		info := map[string]any{"kind": "mint-block", "dt": dt.String(), "fee_minted": df.String(), "bond_minted": db.String(), "stored_before": s0, "stored_after": s1}
+		cf.Add(fmt.Sprintf("CMintBlock {| bk_fee := %s; bk_bond := %s; bk_stored := %s; bk_now_ns := %s; bk_ratio := %s; bk_dfee := %s; bk_dbond := %s; bk_stored' := %s; bk_epoch := %s; bk_prev_mint := %s |}",
+			emit.Z(f0), emit.Z(b0), s0, emit.Z(nowNs), emit.Z(ratio.BigInt()), emit.Z(df), emit.Z(db), s1, emit.Bool(began), optZ(prevEpochTime)))
+		room := new(big.Int).Sub(mintCap(), new(big.Int).Add(f0, b0))
+		info := map[string]any{"kind": "mint-block", "history": name, "block": i, "dt": dt.String(), "fee_supply": f0.String(), "bond_supply": b0.String(), "room_under_cap": room.String(),
+			"epoch_began": began, "fee_minted": df.String(), "bond_minted": db.String(), "stored_before": s0, "stored_after": s1}
 		st.Info(info)
 		st.Evaluations++
-		if df.Sign() > 0 || db.Sign() > 0 {
+		switch {
+		case df.Sign() > 0 || db.Sign() > 0:
 			st.Count("mint-block:minted")
-			st.Nontriv("mint-block/" + dt.String())
+			st.Nontriv("mint-block/" + name + "/" + dt.Truncate(time.Second).String())
 			st.Sample(info)
-			t := h.Time.Unix()
-			prevMint = &t
-		} else {
+		case began:
+			st.Count("mint-block:epoch-without-mint")
+			st.Nontriv("mint-block/" + name + "/zero-provision/" + room.String())
+		default:
 			st.Count("mint-block:nothing")
+		}
+		if began {
+			t := h.Time.Unix()
+			prevEpochTime = &t
 		}
 	}
 	return nil
